@@ -65,9 +65,12 @@ pub fn check_c04(sc: &SyncSc, world: World, rep: &mut RunReport, salt: u64) -> O
     // fault batch: an injected I/O error is outside C04's quantifier, so only the safety
     // clauses are asserted for such a run (source untouched, outside-plan untouched, no
     // partial file at a live name); its exit-0 post-conditions are counted, not raised
-    let faulted = out.stats.injected_errors > 0;
-    if faulted {
+    let faulted = out.stats.injected_errors > 0 || out.stats.kills > 0;
+    if out.stats.injected_errors > 0 {
         rep.fault("injected_io_error", out.stats.injected_errors);
+    }
+    if out.stats.kills > 0 {
+        rep.fault("ssh_child_killed", out.stats.kills);
     }
     let src1 = snap(&out.world, sh, SRC_ROOT);
     let dst1 = snap(&out.world, dh, DST_ROOT);
@@ -86,7 +89,7 @@ pub fn check_c04(sc: &SyncSc, world: World, rep: &mut RunReport, salt: u64) -> O
     // listing is treated as an empty destination and everything is re-sent). Narrow
     // relaxation: a non-excluded source path may additionally be re-delivered — with exactly
     // the source's bytes; everything else is judged as usual.
-    let faulted_early = out.stats.injected_errors > 0;
+    let faulted_early = out.stats.injected_errors > 0 || out.stats.kills > 0;
     let in_plan = |p: &str| {
         plan.transfer.contains(p)
             || plan.delete.contains(p)
@@ -244,6 +247,9 @@ impl Check for C04 {
             // (a tree walk lists few directories: keep the call number low for that kind)
             let nth = if FAULT_KINDS[kind as usize] == OpKind::Readdir { r.range(1, 4) } else { r.range(1, 12) } as u32;
             sc.inject = Some((kind, nth));
+        } else if sc.dir != 0 && r.below(8) == 0 {
+            // an ssh child dies from a signal in the middle of what it is doing
+            sc.kill_child = Some(r.range(2, 14) as u32);
         }
         sc
     }
@@ -501,6 +507,8 @@ impl Check for C15 {
             }
         }
         sc.dst_exists = true;
+        // (the file list was replaced: the pair shape of gen_sync no longer refers to anything)
+        sc.hardlink_pair = false;
         Sc15 { sync: Some(sc), bisync: None }
     }
     fn execute(&self, sc15: &Sc15) -> RunReport {
